@@ -21,6 +21,14 @@ What is DECIDED BY EXECUTION, per generated program (partial):
     wrapper model from the run-time reduction log;
   * flags: the twelve quoted options of every generated lexerdef() are read back and
     evaluated by the model.
+PIPELINE AS A THEOREM (theories/C13/Pipeline*.v, over C14's codec): the generated parse() is
+`decode __GRM_DATA, decode __STABLE_DATA, call RTParserBuilder…` — for every run-time parser
+(a parameter: any function of the decoded values, the recovery kind, the entry point and the
+input) it returns what the run-time call on the built objects returns, in both formats and
+all widths (C13_ct_equals_rt); the generated lexerdef() rebuilds the run-time definition
+(C13_ct_lexerdef_equals_rt).  The facts about the generated text that this model assumes
+(P1-P4, L1 at the head of PipelineModel.v) are checked on every generated module
+(static_module_part); C13_SELFTEST=recoverer|swapdata|format|databyte|ruleflags damages them.
 """
 import os
 import re
@@ -890,7 +898,8 @@ def run(ctx):
         "scanner: %d action texts (corpus, all pairs of `$`-pieces, random mixtures incl. non-ASCII numeric characters), "
         "non-trivial = at least two `$`; flags (static, generation only): %d lexers, every flag set alone (each boolean value; "
         "section and builder API) and every pair of boolean flags with differing values, the quoted options of lexerdef() read back "
-        "and evaluated by the model; pipeline (the first programs: one per behaviour-changing flag at its non-default value with "
+        "and evaluated by the model; module text (every generated program: facts P1-P4, L1 of theories/C13/PipelineModel.v read off "
+        "the generated parser and lexer modules, embedded constants compared with the run-time serialisation); pipeline (the first programs: one per behaviour-changing flag at its non-default value with "
         "rules and inputs sensitive to it): %d generated programs (grammar/lexer family x yacc kind x recoverer x "
         "serialisation format x edition x visibility x module names x lexer flags via %%grmtools section or builder API) "
         "compiled in one throw-away crate, each run on sentences, near-sentences and flag-sensitive inputs; a case = "
@@ -901,17 +910,35 @@ def run(ctx):
             ntexts, nstatic, nprog, stats['nondet_skipped'], stats['err_values'], skipped))
     ctx.coverage["explanation"] = (
         "level 'proof' is claimed for the Coq-carried parts only: the `$`-substitution scanner (all texts), the wrapper's "
-        "argument unpacking and `$k` binding (all productions), flag propagation (all headers). The equivalence of the two "
-        "PIPELINES (serialised tables + generated wrappers + rustc vs run-time construction) is decided by compile-and-run "
-        "per generated program (translation validation over the sampled programs/inputs above): partial.")
+        "argument unpacking and `$k` binding (all productions), flag propagation (all headers), and the composition of the PIPELINE over "
+        "the C14 codec (generated parse() = the run-time parser on the reconstituted = original objects; generated lexerdef() = the "
+        "run-time definition) under the stated facts about the generated text, which are checked on every generated module. That "
+        "the compiled module behaves as its text says (serialised tables + generated wrappers + rustc vs run-time construction) is "
+        "decided by compile-and-run per generated program (translation validation over the sampled programs/inputs above): partial.")
     ctx.coverage["trusted_base_extra"] = [
         "rustc/cargo (compile the generated modules), quote!/prettyplease/proc_macro2 printing (not modelled)",
         "harness/src/c13_fmt.rs is compiled into both sides so that they print in one format",
     ]
     ctx.assumptions += [
-        "PARTIAL: 'for any grammar and lexer specification … every input … all settings' is established only for the generated "
-        "programs, settings and inputs of this run (compile-and-run per program); Coq carries the scanner, the wrapper's unpacking "
-        "and the flag regeneration, not rustc, quote!, the serialisation codec (see C14) or the parser itself",
+        "PIPELINE THEOREMS (theories/C13/Pipeline*.v over the C14 codec): for EVERY run-time parser (any function of the grammar value, "
+        "the table value, the recovery kind, the entry point and the input), both serialisation formats and every storage width the "
+        "generated parse() = decode both embedded constants, call that function = the run-time call on the built objects "
+        "(C13_ct_equals_rt, _bytes, _parser_data_reconstitutes, _ct_parse_format_independent); for every regex compiler and id "
+        "assignment the generated lexerdef() rebuilds the run-time definition — same start states, rules, token ids, regexes compiled "
+        "under the same flags (C13_ct_lexerdef_equals_rt, _ct_lex_equals_rt).  These rest on facts about the generated TEXT, checked on "
+        "every generated module of the run (obligation 'generated parse()/lexerdef() text'): P1 one __GRM_DATA / __STABLE_DATA constant "
+        "each, used only as the arguments of _reconstitute in this order; P2 __SERIALISATION_FORMAT = configured format and each arm "
+        "decodes with its own configuration; P3 parse() takes grm/stable from __lrpar_parser_data() and makes exactly one "
+        "RTParserBuilder::new(grm, stable).recoverer(<configured kind>).<entry point of the YaccKind>; P4 the embedded bytes equal the "
+        "serialisation (harness c14, same wincode calls) of the grammar and table the run-time functions build from the same source "
+        "(needs C15: the construction is deterministic across processes); L1 every Rule::new of lexerdef() is built with the one "
+        "`lex_flags` variable and lexerdef() returns from_rules(start_states, rules).  NOT checked statically, decided by compile-and-run "
+        "only: L2 rustc reads the quoted rule / start-state fields back as the quoted values; the action wrappers' glue; rustc itself",
+        "the pipeline theorems use the schema of YaccGrammar / StateTable that C14's translator generated from the Rust sources "
+        "(theories/C14/Schema_gen.v as last regenerated and gated by ./check C14) and C14's tie wincode = encode/decode",
+        "PARTIAL: 'for any grammar and lexer specification … every input … all settings' — the behaviour of the compiled module is "
+        "tied to the text by compile-and-run per generated program; Coq carries the scanner, the wrapper's unpacking, the flag "
+        "regeneration and the pipeline composition over the codec, not rustc, quote! or the parser itself (a parameter)",
         "char::is_numeric is a parameter of the scanner mirror; the correspondence instantiates it with ASCII digits plus the "
         "non-ASCII characters of the text in Unicode categories Nd/Nl/No (Python unicodedata)",
         "scanner mirror indexes by character, the code by byte: all slice positions are sums of find() offsets and lengths of "
